@@ -66,6 +66,8 @@ def gen(rng, tier):
             dec(rng.randrange(2), rng.randrange(2), rng.randrange(2), bytes(tup), "exhaustive-small")
     for _ in range(300 if tier == "quick" else 4000):
         L = rng.randrange(1, 30); alldec(bytes(rng.choice(STD + b"-_== \n\x80") for _ in range(L)), "random-mixed", 0.5)
+    # every API family once during static initialisation of the driver (before the library's own dynamic initialisers have run)
+    cases.append(Case("staticinit", "static-initialisation battery", True, spec="staticinit"))
     return cases
 
 def key(case, impl, model):
